@@ -142,6 +142,14 @@ def _c12_tags(toks, impl):
     return ["ktype=" + toks[1], "container=" + toks[3].split(".")[0], "len=" + ("0-1" if ln <= 1 else "block-boundary" if ln in (31, 32, 33, 63, 64, 65) else "other")]
 
 
+def _c16_tags(toks, impl):
+    t = ["req=" + toks[1] + ("-" + toks[2] if toks[1] in ("acgt", "kernel") else "")]
+    if toks[1] == "acgt":
+        n = 0 if toks[3] == "-" else len(toks[3]) // 2
+        t.append("blocks=%d%s" % (n // 32, "+tail" if n % 32 else ""))
+    return t
+
+
 PROPS = {
     "C07": {
         "lean_modules": ["Dbg.Props.C07"],
@@ -284,5 +292,22 @@ PROPS = {
                 "(n-K-i)-th k-mer; Exts: sides swapped, bases complemented. The k-mer instance (min_rc, flip, palindrome) is in the C10 requests.",
         "trusted_base": [],
         "assumptions": [],
+    },
+    "C16": {
+        "lean_modules": ["Dbg.Props.C16"],
+        "theorems": ["Avx2.C16_baseToBits_table", "Avx2.C16_valid_table", "Avx2.C16_render_back", "Avx2.C16_scalar_is_bytewise", "Avx2.C16_str_agrees"],
+        "partial": ["convert_lanewise / pack_spec / paths_agree (vector path = scalar path for every byte string), strict_runs, hashn_spec: the "
+                    "kernels are modelled intrinsic by intrinsic and compared on arbitrary bytes (also outside their preconditions) on every "
+                    "run; theorems not yet written"],
+        "n_quick": 12000, "n_thorough": 1000000,
+        "nontrivial": lambda toks, impl: impl not in ("panic", "unavailable"), "tags": _c16_tags,
+        "rule": "requests: `acgt auto|scalar <bytes>` (lengths 0..130 incl. 0,1,31..33,63..65,95..97,128,130; 60% ACGTacgt, 40% arbitrary bytes "
+                "0..255; valid 32-byte blocks with 0-2 lanes perturbed to arbitrary values plus a tail), `kernel convert|pack <32 bytes>` "
+                "(raw AVX2 kernels through the hook wrappers, arbitrary bytes incl. >= 4 for pack), `str`, `only` (ASCII text with 40% "
+                "arbitrary ASCII), `hashn <b1> <b2> <name>` (two byte strings under one read name: non-ACGT positions shared between the "
+                "two must receive the same base). Forced-scalar path through the verif_hooks switch. Non-trivial = an answer was produced.",
+        "trusted_base": ["x86 semantics of the eleven AVX2 intrinsics as transcribed in Model/Avx2.lean (validated against the hardware by the "
+                         "kernel requests on arbitrary bytes)", "DefaultHasher is an arbitrary deterministic function (parameter of the model)"],
+        "assumptions": ["from_dna_string: code points < 256 (`c as u8` truncates; non-Latin-1 aliasing is outside the property)"],
     },
 }
